@@ -1,37 +1,87 @@
 (* C13 — ANSI colour codes do not change where lines break.
-   Stage theorems (the assembled wrap-level statement is pending): widths are blind to
-   well-formed sequences, force-breaking never cuts a sequence, and the Unicode
-   separator places every boundary at top level, before a sequence that directly
-   precedes the break. *)
-From TW Require Import Wrap.
-From TW Require Import EscFacts Lossless SplitBreak.
+   A paragraph is an interleaving of visible characters and runs of well-formed
+   sequences: items = list (Ch c | Seq q), WF: every Ch is not ESC, every Seq is a
+   concatenation of well-formed CSI/OSC sequences without a space in it; render items is
+   the coloured text, plain items the text with the sequences removed.
+   ParaOK o items :=  WF /\ Attached (no run of sequences sits between two spaces or at a
+   paragraph edge next to a space — implied by the property's "touches a non-space
+   character", Touching_Attached) /\ the linebreak oracle is OracleOK on the plain text
+   (Unicode separator) /\ HyOK (hyphen splitter: every '-' and its two neighbours are
+   visible, i.e. no sequence touches a hyphen and none contains one — the negation is the
+   listed known finding CutInsideEscape) /\ the byte-length shortcut is unobservable on the
+   plain paragraph (ShortcutOK: C05, needed only when the coloured paragraph is at least
+   [width] bytes long and the plain one is not).
+   Conclusion: removing the sequences from every line of wrap(coloured) gives the lines of
+   wrap(plain) (after removing those of the indents), and every coloured line ends at top
+   level: no sequence is cut in two. *)
+From TW Require Import Wrap Custom.
+From TW Require Import Pipeline Fits Colour.
 
-(* the display width of well-formed text is that of the text with the sequences removed *)
-Theorem C13_width_blind : forall (cw : char -> N) t v, Parse t v -> dw cw t = dw cw v /\ strip t = v.
+Theorem C13_wrap : forall cw alnum lbc custom_sp ofit,
+  OfitOK ofit -> OfitBlind ofit -> SplitterOK custom_sp ->
+  forall o (paras : list (list item)),
+  final_state Normal (o_ii o) = Normal -> final_state Normal (o_si o) = Normal ->
+  paras <> [] ->
+  Forall (ParaOK cw alnum lbc custom_sp ofit o) paras ->
+  Forall (fun p => ~ In LF (render p)) paras ->
+  exists ls_r ls_p,
+    wrap cw alnum lbc custom_sp ofit o (join (le_str (o_le o)) (map render paras)) = Some ls_r /\
+    wrap cw alnum lbc custom_sp ofit o (join (le_str (o_le o)) (map plain paras)) = Some ls_p /\
+    map (fun l => strip (l_text l)) ls_r = map (fun l => strip (l_text l)) ls_p /\
+    Forall (fun l => final_state Normal (l_text l) = Normal) ls_r /\
+    (Forall (fun c => c <> ESC) (o_ii o) -> Forall (fun c => c <> ESC) (o_si o) ->
+     map (fun l => strip (l_text l)) ls_r = map l_text ls_p).
+Proof. exact K6_wrap. Qed.
+
+(* the oracle hypotheses hold for the reference optimal-fit; first-fit uses no oracle *)
+Theorem C13_reference_oracle : OfitOK ofit_dp /\ OfitBlind ofit_dp.
+Proof. split; [exact ofit_dp_ok|exact ofit_dp_blind]. Qed.
+
+(* the shortcut hypothesis is C05(b): with cw c <= utf8_len c and the ASCII separator it is
+   a theorem for first-fit (any oracle) and for the reference optimal-fit *)
+Theorem C13_shortcut_ok_first_fit : forall (cw : char -> N) alnum lbc custom_sp ofit o first p,
+  (forall c, cw c <= utf8_len c) -> SplitterOK custom_sp -> o_alg o = FirstFit -> o_sep o = SepAscii ->
+  ShortcutOK cw alnum lbc custom_sp ofit o first p.
 Proof.
-  intros cw t v H. destruct (parse_machine t v H) as [_ Hs]. split; [|exact Hs].
-  rewrite (dw_strip cw t), Hs.
-  assert (Hv : Forall (fun c => c <> ESC) v).
-  { clear Hs. induction H; auto. }
-  rewrite (dw_strip cw v). f_equal. symmetry.
-  exact (proj2 (parse_machine v v (esc_free_parse v Hv))).
+  intros cw alnum lbc custom_sp ofit o first p Hcw HS Ha Hsep Hlt Hind.
+  eexists. split.
+  - eapply shortcut_slow_first_fit; try eassumption. apply TrimOK_ascii; assumption.
+  - reflexivity || (unfold one_line; cbn [map l_text]; rewrite Hind; reflexivity).
 Qed.
 
-Theorem C13_break_never_cuts_a_sequence : forall (cw : char -> N) lim wd ps1 ps2,
-  break_apart cw lim wd = ps1 ++ ps2 -> ps2 <> [] ->
-  final_state Normal (concat (map w_word ps1)) = Normal.
-Proof. exact break_apart_no_cut_in_escape. Qed.
+Theorem C13_shortcut_ok_optimal_fit : forall (cw : char -> N) alnum lbc custom_sp P o first p,
+  (forall c, cw c <= utf8_len c) -> SplitterOK custom_sp -> o_alg o = OptimalFit P -> o_sep o = SepAscii ->
+  ShortcutOK cw alnum lbc custom_sp ofit_dp o first p.
+Proof.
+  intros cw alnum lbc custom_sp P o first p Hcw HS Ha Hsep Hlt Hind.
+  eexists. split.
+  - eapply shortcut_slow_optimal_fit; try eassumption. apply TrimOK_ascii; assumption.
+  - unfold one_line; cbn [map l_text]; rewrite Hind; reflexivity.
+Qed.
 
-Theorem C13_unicode_boundaries_at_top_level : forall line opps,
-  OracleOK (strip line) opps ->
-  let kept := filter (keep_opportunity (strip line)) opps in
-  let cuts := cut_positions kept (idx_map line) in
-  Forall2 (fun p o =>
-     final_state Normal (firstn p line) = Normal /\ blen (strip (firstn p line)) = o /\
-     forall p', (p' < p)%nat -> final_state Normal (firstn p' line) = Normal ->
-                blen (strip (firstn p' line)) < o) cuts kept.
-Proof. exact unicode_cuts_top. Qed.
+(* stages *)
+Theorem C13_strip : forall l, WF l -> strip (render l) = plain l.
+Proof. exact K1_strip. Qed.
 
-Print Assumptions C13_width_blind.
-Print Assumptions C13_break_never_cuts_a_sequence.
-Print Assumptions C13_unicode_boundaries_at_top_level.
+Theorem C13_ascii_words : forall (cw : char -> N) items, WF items -> Attached items ->
+  map strip_word (find_words_ascii cw (render items)) = find_words_ascii cw (plain items) /\
+  Forall (fun w => final_state Normal (w_word w) = Normal) (find_words_ascii cw (render items)).
+Proof. exact K2_words. Qed.
+
+Theorem C13_unicode_words : forall (cw : char -> N) lbc items, WF items -> Attached items ->
+  Lossless.OracleOK (plain items) (lbc (plain items)) ->
+  map strip_word (find_words_unicode cw lbc (render items)) = find_words_unicode cw lbc (plain items) /\
+  Forall (fun w => final_state Normal (w_word w) = Normal) (find_words_unicode cw lbc (render items)).
+Proof. exact K7_words. Qed.
+
+Theorem C13_touching_is_attached : forall l, Touching l -> Attached l.
+Proof. exact Touching_Attached. Qed.
+
+Print Assumptions C13_wrap.
+Print Assumptions C13_reference_oracle.
+Print Assumptions C13_shortcut_ok_first_fit.
+Print Assumptions C13_shortcut_ok_optimal_fit.
+Print Assumptions C13_strip.
+Print Assumptions C13_ascii_words.
+Print Assumptions C13_unicode_words.
+Print Assumptions C13_touching_is_attached.
